@@ -105,10 +105,11 @@ func TestVerifC12Dist(t *testing.T) {
 		t.Fatalf("INFRA: %v", err)
 	}
 	c := ev.For("C12")
-	c.Rule("dist: generated seed (uniform, single non-zero byte, all-ff, or one of 96 stored seeds for which the shuffle of 0..1448 passes through a rejected draw), bounds (0,1448) / (0,100) / (21,1448) / small ranges min..min+k with k <= 4, both bias settings; oracle: value list and weights equal, bit for bit, the independent statement of the deployed seed -> table mapping (refdist: SipHash OFB read through the documented algorithms of math/rand); New twice and Reset on an instance seeded otherwise give identical value/weight/alias/prob tables; 1 <= len(values) <= min(100, range), values distinct and inside the range; 300 samples lie in the table and in [min,max]; alias indices in range, prob in [0,1], and the exact sampling probability of every value reconstructed from the alias tables equals its normalised weight within 1e-9; tables differ across seeds; non-trivial = table with >= 2 entries; fingerprint = seed, bounds, bias")
+	c.Rule("dist: generated seed (uniform, single non-zero byte, all-ff, or one of 96 stored seeds for which the shuffle of 0..1448 passes through a rejected draw), bounds (0,1448) / (0,100) / (21,1448) / small ranges min..min+k with k <= 4, both bias settings; oracle: (value, weight) pairs equal, bit for bit, the independent statement of the deployed seed -> table mapping (refdist: SipHash OFB read through the documented algorithms of math/rand); New twice and Reset on an instance seeded otherwise give identical value/weight/alias/prob tables; 1 <= len(values) <= min(100, range), values distinct and inside the range; the examined instance has first been used (0..3 rounds of Sample x7 or String(), which are reads: the checks below hold afterwards as well); 300 samples lie in the table and in [min,max]; alias indices in range, prob in [0,1], and the exact sampling probability of every value reconstructed from the alias tables equals its normalised weight within 1e-9; tables differ across seeds; non-trivial = table with >= 2 entries; fingerprint = seed, bounds, bias")
 	c.Floor("dist-biased/dist", 0.3)
 	c.Floor("dist-small-range/dist", 0.15)
 	c.Floor("dist-seed-with-rejected-draw/dist", 0.01)
+	c.Floor("dist-dumped-before-examined/dist", 0.3)
 	rapid.Check(t, func(rt *rapid.T) {
 		seedB := vf12Seed(rt, "seed")
 		seed, err := drbg.SeedFromBytes(seedB)
@@ -133,29 +134,54 @@ func TestVerifC12Dist(t *testing.T) {
 		if biased {
 			cls = append(cls, "dist-biased")
 		}
+		w0 := New(seed, min, max, biased)
 		w1 := New(seed, min, max, biased)
-		// what the seed denotes as deployed (independent reference)
-		ref := refdist.New(seedB, min, max, biased)
-		if len(ref.Values) != len(w1.values) {
-			rt.Fatalf("VIOL[c12-differs-from-deployed-mapping]: New(seed %x, %d, %d, %v) has %d values, the deployed seed -> table mapping gives %d", seedB, min, max, biased, len(w1.values), len(ref.Values))
+		// the instance that is examined below has been used like the transports (and their logging) use it:
+		// Sample and String are reads, the distribution afterwards is still the one the seed denotes
+		used := false
+		for u, nUse := 0, rapid.IntRange(0, 3).Draw(rt, "uses"); u < nUse; u++ {
+			if rapid.Bool().Draw(rt, "useString") {
+				_ = w1.String()
+				used = true
+			} else {
+				for k := 0; k < 7; k++ {
+					w1.Sample()
+				}
+			}
 		}
+		if used {
+			cls = append(cls, "dist-dumped-before-examined")
+		}
+		// what the seed denotes as deployed (independent reference); the order in which an instance lists its
+		// (value, weight) pairs is not part of the mapping
+		ref := refdist.New(seedB, min, max, biased)
+		if len(ref.Values) != len(w1.values) || len(w1.weights) != len(w1.values) {
+			rt.Fatalf("VIOL[c12-differs-from-deployed-mapping]: New(seed %x, %d, %d, %v) has %d values / %d weights, the deployed seed -> table mapping gives %d", seedB, min, max, biased, len(w1.values), len(w1.weights), len(ref.Values))
+		}
+		refW := map[int]uint64{}
 		for i := range ref.Values {
-			if min+w1.values[i] != ref.Values[i] || math.Float64bits(w1.weights[i]) != math.Float64bits(ref.Weights[i]) {
-				rt.Fatalf("VIOL[c12-differs-from-deployed-mapping]: New(seed %x, %d, %d, %v): entry %d is (%d, %v), the deployed seed -> table mapping gives (%d, %v)", seedB, min, max, biased, i, min+w1.values[i], w1.weights[i], ref.Values[i], ref.Weights[i])
+			refW[ref.Values[i]] = math.Float64bits(ref.Weights[i])
+		}
+		for i := range w1.values {
+			if b, ok := refW[min+w1.values[i]]; !ok || b != math.Float64bits(w1.weights[i]) {
+				rt.Fatalf("VIOL[c12-differs-from-deployed-mapping]: New(seed %x, %d, %d, %v) (dumped before: %v): entry %d is (%d, %v), the deployed seed -> table mapping has %v for that value (present %v)", seedB, min, max, biased, used, i, min+w1.values[i], w1.weights[i], math.Float64frombits(b), ok)
 			}
 		}
 		if ref.Rejections > 0 {
 			cls = append(cls, "dist-seed-with-rejected-draw")
 		}
 		w2 := New(seed, min, max, biased)
-		if vf12Tables(w1) != vf12Tables(w2) {
+		if vf12Tables(w0) != vf12Tables(w2) {
 			rt.Fatalf("VIOL[c12-not-deterministic]: New(seed %x, %d, %d, %v) twice gives different tables", seedB, min, max, biased)
 		}
 		otherB := detrand.Bytes(rapid.Uint64().Draw(rt, "otherSeed"), 24)
 		other, _ := drbg.SeedFromBytes(otherB)
 		w3 := New(other, min, max, biased)
+		if rapid.Bool().Draw(rt, "dumpBeforeReset") {
+			_ = w3.String()
+		}
 		w3.Reset(seed)
-		if vf12Tables(w1) != vf12Tables(w3) {
+		if vf12Tables(w0) != vf12Tables(w3) {
 			rt.Fatalf("VIOL[c12-reset-differs]: Reset(seed %x) on an instance built from another seed does not give the tables of New(seed)", seedB)
 		}
 		n := len(w1.values)
